@@ -200,3 +200,39 @@ package components
 //@   loop 1 invariant stable: p == old(p) && p.outPorts == old(p.outPorts) && selOutsOK(p) && ips != nil && (forall k string :: k in ips ==> validIP(ips[k]) && selTupleKey(k))
 //@   loop 2 invariant all-pass: forall k string :: k in ips ==> selIncludes(ips[k])
 //@   loop 2 invariant stable: p == old(p) && p.outPorts == old(p.outPorts) && selOutsOK(p) && ips != nil && (forall k string :: k in ips ==> validIP(ips[k]) && selTupleKey(k))
+
+// FileSplitter: every line read is written exactly once, in order, to the current part; a part is closed, finalized and
+// sent when it holds LinesPerSplit lines and never holds more; parts are numbered consecutively from 1; the last part
+// is closed, finalized and sent when the scan ends. Files are abstracted by the log of strings written to them
+// (fwN/fwAt, maintained by the assumed contract of (*os.File).WriteString).
+//@ ghost var fwN arr[ref]int
+//@ ghost var fwAt arr[ref]arr[int]string
+//@ ghost func createdName(f ref) string
+//@ ghost func splitPathOf(base string, idx int) string
+//@ extern (*os.File).WriteString(f, s) (n, err)
+//@   modifies fwN, fwAt
+//@   ensures logged: fwN == update(old(fwN), f, old(fwN)[f] + 1) && fwAt == update(old(fwAt), f, update(old(fwAt)[f], old(fwN)[f], s))
+//@ extern os.Create(name) (file, err)
+//@   modifies fwN, effCreated, fsEpoch
+//@   ensures created: err == nil ==> file != nil && createdName(file) == name && fwN == update(old(fwN), file, 0)
+//@   ensures eff: effCreated == setAdd(old(effCreated), name)
+
+//@ func (*FileSplitter).InFile(p) (res)
+//@   props C19
+//@   ensures def: "file" in p.inPorts && res == p.inPorts["file"]
+//@ func (*FileSplitter).OutSplitFile(p) (res)
+//@   props C19
+//@   ensures def: "split_file" in p.outPorts && res == p.outPorts["split_file"]
+
+//@ func (*FileSplitter).newSplitIPFromIndex(p, basePath, splitIdx) (res)
+//@   props C19
+//@   modifies *
+//@   assumes named-by-index: res.path == splitPathOf(basePath, splitIdx)
+//@   ensures valid: validIP(res) && fresh(res) && !res.doStream && len(res.path) > 0
+//@   ensures logs-kept: fwN == old(fwN) && fwAt == old(fwAt) && outN == old(outN) && outAt == old(outAt) && scanPos == old(scanPos)
+
+//@ func (*FileSplitter).createNewSplitFile(p, ip, basePath) (tempDir, tempFile)
+//@   props C19
+//@   requires ip: ip != nil && ip.BaseIP != nil
+//@   modifies fwN, effCreated, effMkdir, fsEpoch
+//@   ensures file: tempFile != nil && createdName(tempFile) == basePath + "/" + tempPathOf(ip.path) && fwN == update(old(fwN), tempFile, 0)
